@@ -8,6 +8,10 @@
 (*   "o2o"  B.a = Required/Optional(A) (BReq), A.b = Optional(B,           *)
 (*          cascade_delete=Casc)                                           *)
 (*   "m2m"  A.bs = Set(B), B.as_ = Set(A)                                  *)
+(*   "mix"  both: A.ls = Set(B) <-> B.as_ = Set(A) (declared first) and    *)
+(*          the one-to-many A.bs <-> B.a as in "o2m": deleting A first     *)
+(*          clears the many-to-many collection and may then be refused by  *)
+(*          the one-to-many rule - the cleared collection must come back   *)
 (* Objects are identified by their explicit integer primary keys.  0 is    *)
 (* None for v, u and the reference a.                                      *)
 (*                                                                         *)
@@ -34,7 +38,7 @@ EXTENDS Integers, FiniteSets, Sequences, TLC
 
 CONSTANTS AIds, BIds, Vals, Rel, BReq, Casc, MaxLevel
 
-ASSUME Rel \in {"o2m", "o2o", "m2m"}
+ASSUME Rel \in {"o2m", "o2o", "m2m", "mix"}
 ASSUME BReq \in BOOLEAN /\ Casc \in BOOLEAN
 
 VARIABLES db, tx, cur,       \* database states
@@ -60,6 +64,11 @@ Kids(s, a) == IF Rel = "m2m" THEN {b \in BIds : <<a, b>> \in s.L}
               ELSE {b \in BIds : s.B[b].ex /\ s.B[b].a = a}
 Parents(s, b) == IF Rel = "m2m" THEN {a \in AIds : <<a, b>> \in s.L}
                  ELSE IF s.B[b].a = 0 THEN {} ELSE {s.B[b].a}
+
+HasLinks == Rel \in {"m2m", "mix"}
+IsO2M == Rel \in {"o2m", "mix"}
+Links(s, a) == {b \in BIds : <<a, b>> \in s.L}
+LinksB(s, b) == {a \in AIds : <<a, b>> \in s.L}
 
 Ev(op, e, k, x, y, out, ret) == [op |-> op, e |-> e, k |-> k, x |-> x, y |-> y, out |-> out, ret |-> ret]
 
@@ -110,10 +119,10 @@ ARowOf(v) == [ex |-> TRUE, v |-> v]
 BRowOf(u, a) == [ex |-> TRUE, u |-> u, a |-> IF Rel = "m2m" THEN 0 ELSE a]
 Seed1 == [A |-> [k \in AIds |-> IF k = 1 THEN ARowOf(1) ELSE NoA],
           B |-> [k \in BIds |-> IF k = 1 THEN BRowOf(1, 1) ELSE NoB],
-          L |-> IF Rel = "m2m" THEN {<<1, 1>>} ELSE {}]
+          L |-> IF HasLinks THEN {<<1, 1>>} ELSE {}]
 Seed2 == [A |-> [k \in AIds |-> IF k = 1 THEN ARowOf(1) ELSE IF k = 2 THEN ARowOf(0) ELSE NoA],
           B |-> [k \in BIds |-> IF k = 1 THEN BRowOf(1, 1) ELSE IF k = 2 THEN BRowOf(2, IF Rel = "o2o" THEN 2 ELSE 1) ELSE NoB],
-          L |-> IF Rel = "m2m" THEN {<<1, 1>>, <<1, 2>>, <<2, 2>>} ELSE {}]
+          L |-> IF HasLinks THEN {<<1, 1>>, <<1, 2>>, <<2, 2>>} ELSE {}]
 Seed3 == [A |-> [k \in AIds |-> IF k = 1 THEN ARowOf(2) ELSE NoA],
           B |-> [k \in BIds |-> NoB], L |-> {}]
 SeedDbs == {EmptyDb, Seed1, Seed2, Seed3}
@@ -301,19 +310,19 @@ CollRemove(a, b) ==
           /\ known' = known \cup {<<"A", a>>, <<"B", b>>}
           /\ ev' = Ev("CollRemove", "A", a, b, 0, "ok", {})
           /\ UNCHANGED <<db, tx, sess, loadedB>>
-       \/ /\ Rel = "o2m" /\ Casc
+       \/ /\ IsO2M /\ Casc
           /\ cur' = RemoveB(cur, {b})
           /\ AfterDelete({<<"B", b>>})
           /\ known' = known \cup {<<"A", a>>, <<"B", b>>}
           /\ ev' = Ev("CollRemove", "A", a, b, 0, "ok", {})
           /\ UNCHANGED <<db, tx, sess, loadedB>>
-       \/ /\ Rel = "o2m" /\ ~Casc /\ ~BReq
+       \/ /\ IsO2M /\ ~Casc /\ ~BReq
           /\ cur' = UnlinkB(cur, {b})
           /\ UNCHANGED <<pendNew, pendDel>>
           /\ known' = known \cup {<<"A", a>>, <<"B", b>>}
           /\ ev' = Ev("CollRemove", "A", a, b, 0, "ok", {})
           /\ UNCHANGED <<db, tx, sess, loadedB>>
-       \/ /\ Rel = "o2m" /\ ~Casc /\ BReq
+       \/ /\ IsO2M /\ ~Casc /\ BReq
           /\ Fail("CollRemove", "A", a, b, 0, "ValueError", {<<"A", a>>, <<"B", b>>})
        \/ TFail("CollRemove", "A", a, b, 0)
 
@@ -328,21 +337,38 @@ CollClear(a) ==
              /\ known' = known \cup learnt
              /\ ev' = Ev("CollClear", "A", a, 0, 0, "ok", {})
              /\ UNCHANGED <<db, tx, sess, loadedB>>
-          \/ /\ Rel = "o2m" /\ Casc
+          \/ /\ IsO2M /\ Casc
              /\ cur' = RemoveB(cur, kids)
              /\ AfterDelete({<<"B", b>> : b \in kids})
              /\ known' = known \cup learnt
              /\ ev' = Ev("CollClear", "A", a, 0, 0, "ok", {})
              /\ UNCHANGED <<db, tx, sess, loadedB>>
-          \/ /\ Rel = "o2m" /\ ~Casc /\ ~BReq
+          \/ /\ IsO2M /\ ~Casc /\ ~BReq
              /\ cur' = UnlinkB(cur, kids)
              /\ UNCHANGED <<pendNew, pendDel>>
              /\ known' = known \cup learnt
              /\ ev' = Ev("CollClear", "A", a, 0, 0, "ok", {})
              /\ UNCHANGED <<db, tx, sess, loadedB>>
-          \/ /\ Rel = "o2m" /\ ~Casc /\ BReq
+          \/ /\ IsO2M /\ ~Casc /\ BReq
              /\ Fail("CollClear", "A", a, 0, 0, "ValueError", learnt)
           \/ TFail("CollClear", "A", a, 0, 0)
+
+(* "mix" only: the many-to-many collection a.ls / b.as_ next to the one-to-many a.bs *)
+LAdd(a, b) ==
+    /\ Open /\ Rel = "mix" /\ cur.A[a].ex /\ cur.B[b].ex /\ <<a, b>> \notin cur.L
+    /\ \/ /\ cur' = [cur EXCEPT !.L = @ \cup {<<a, b>>}]
+          /\ known' = known \cup {<<"A", a>>, <<"B", b>>}
+          /\ ev' = Ev("LAdd", "A", a, b, 0, "ok", {})
+          /\ UNCHANGED <<db, tx, sess, pendNew, pendDel, loadedB>>
+       \/ TFail("LAdd", "A", a, b, 0)
+
+LRemove(a, b) ==
+    /\ Open /\ Rel = "mix" /\ cur.A[a].ex /\ <<a, b>> \in cur.L
+    /\ \/ /\ cur' = [cur EXCEPT !.L = @ \ {<<a, b>>}]
+          /\ known' = known \cup {<<"A", a>>, <<"B", b>>}
+          /\ ev' = Ev("LRemove", "A", a, b, 0, "ok", {})
+          /\ UNCHANGED <<db, tx, sess, pendNew, pendDel, loadedB>>
+       \/ TFail("LRemove", "A", a, b, 0)
 
 (* a.delete() *)
 DeleteA(a) ==
@@ -391,10 +417,13 @@ GetRef(k) == Open /\ Rel # "m2m" /\ cur.B[k].ex
 (* a.bs (o2m, m2m) resp. a.b (o2o) *)
 Coll(a)   == Open /\ cur.A[a].ex
              /\ Read("Coll", "A", a, 0, Kids(cur, a), {<<"A", a>>} \cup {<<"B", b>> : b \in Kids(cur, a)},
-                     IF Rel = "o2m" THEN Kids(cur, a) ELSE {})
+                     IF IsO2M THEN Kids(cur, a) ELSE {})
+(* a.ls (mix) *)
+LColl(a)  == Open /\ Rel = "mix" /\ cur.A[a].ex
+             /\ Read("LColl", "A", a, 0, Links(cur, a), {<<"A", a>>} \cup {<<"B", b>> : b \in Links(cur, a)}, {})
 (* b.as_ (m2m) *)
-CollB(b)  == Open /\ Rel = "m2m" /\ cur.B[b].ex
-             /\ Read("CollB", "B", b, 0, Parents(cur, b), {<<"B", b>>} \cup {<<"A", a>> : a \in Parents(cur, b)}, {})
+CollB(b)  == Open /\ HasLinks /\ cur.B[b].ex
+             /\ Read("CollB", "B", b, 0, LinksB(cur, b), {<<"B", b>>} \cup {<<"A", a>> : a \in LinksB(cur, b)}, {})
 (* E.get(id=k): found or None *)
 Find(e, k) == Open /\ Read("Find", e, k, 0, IF Ex(cur, e, k) THEN {1} ELSE {0},
                            IF Ex(cur, e, k) THEN {<<e, k>>} ELSE {}, {})
@@ -491,11 +520,11 @@ Modify == \/ \E k \in AIds, x \in ValsN : CreateA(k, x) \/ SetV(k, x)
           \/ \E k \in BIds, y \in ValsN : SetU(k, y)
           \/ \E k \in BIds, z \in AIds \cup {0} : SetRef(k, z)
           \/ \E k \in BIds, y \in ValsN, z \in AIds \cup {0} : SetMany(k, y, z)
-          \/ \E a \in AIds, b \in BIds : CollAdd(a, b) \/ CollRemove(a, b)
+          \/ \E a \in AIds, b \in BIds : CollAdd(a, b) \/ CollRemove(a, b) \/ LAdd(a, b) \/ LRemove(a, b)
           \/ \E a \in AIds : CollClear(a) \/ DeleteA(a)
           \/ \E b \in BIds : DeleteB(b)
 
-Reads  == \/ \E k \in AIds : GetV(k) \/ Coll(k)
+Reads  == \/ \E k \in AIds : GetV(k) \/ Coll(k) \/ LColl(k)
           \/ \E k \in BIds : GetU(k) \/ GetRef(k) \/ CollB(k)
           \/ \E e \in {"A", "B"} : SelAll(e) \/ \E k \in Ids(e) : Find(e, k)
           \/ \E y \in Vals : FindU(y)
@@ -532,7 +561,7 @@ FailureIsNoOp == [][(ev'.out \notin {"ok", "Integrity"}) => (db' = db /\ tx' = t
 FlushConflictAborts == [][(ev'.out = "Integrity") => db' = db]_vars
 
 (* C10: reads never change data *)
-ReadsArePure == [][(ev'.op \in {"GetV", "GetU", "GetRef", "Coll", "CollB", "Find", "FindU", "SelAll"} /\ ev'.out = "ok")
+ReadsArePure == [][(ev'.op \in {"GetV", "GetU", "GetRef", "Coll", "CollB", "LColl", "Find", "FindU", "SelAll"} /\ ev'.out = "ok")
                      => (db' = db /\ tx' = tx /\ cur' = cur)]_vars
 
 (* The four action properties above as one ACTION_CONSTRAINT with assertions: evaluated on every transition during
@@ -542,7 +571,7 @@ StepProps ==
     /\ Assert((ev'.out \notin {"ok", "Integrity"}) => (db' = db /\ tx' = tx /\ cur' = cur /\ pendNew' = pendNew /\ pendDel' = pendDel /\ sess' = sess),
               "FailureIsNoOp violated")
     /\ Assert((ev'.out = "Integrity") => db' = db, "FlushConflictAborts violated")
-    /\ Assert((ev'.op \in {"GetV", "GetU", "GetRef", "Coll", "CollB", "Find", "FindU", "SelAll"} /\ ev'.out = "ok")
+    /\ Assert((ev'.op \in {"GetV", "GetU", "GetRef", "Coll", "CollB", "LColl", "Find", "FindU", "SelAll"} /\ ev'.out = "ok")
                  => (db' = db /\ tx' = tx /\ cur' = cur), "ReadsArePure violated")
 
 (* pending bookkeeping is consistent with the view *)
